@@ -196,58 +196,103 @@ func driveConc(seed uint64, n int, size int, em *Emitter) {
 		// and time, a block context that differs in one field) ran before it in this process
 		em.Op("C16,C17", "S det-interleaved", detInterleaved(r))
 
-		// cancellation of a looping execution from another goroutine
-		sdb := newStateDB()
-		env := newEnv(forkNames[4+r.Intn(8)], nil, nil, sdb, nil)
-		env.evm.CloseAspectCall()
-		loop := common.BytesToAddress([]byte{0xc0, 9, 9})
-		code := []byte{opJUMPDEST, opPUSH1, 0, opPUSH1, 0, opMSTORE, opPUSH1, 0, opJUMP}
-		if r.Bool() {
-			// the loop runs one level down
-			a := &Asm{}
-			a.Op(opPUSH1, 0, opPUSH1, 0, opPUSH1, 0, opPUSH1, 0, opPUSH1, 0).PushBytes(loop[:]).Op(opGAS, opCALL, opSTOP)
-			outer := common.BytesToAddress([]byte{0xc0, 9, 8})
-			sdb.CreateAccount(outer)
-			sdb.SetCode(outer, a.Bytes())
-			sdb.CreateAccount(loop)
-			sdb.SetCode(loop, code)
-			if env.rules.IsBerlin {
-				sdb.AddAddressToAccessList(outer)
+		// cancellation of a looping execution from another goroutine: the loop runs in the top-level frame, one call down, in the
+		// init code of a CREATE one level down, or in the init code of a top-level creation; a counting debug tracer is attached
+		// half of the time (its start/end and enter/exit callbacks are part of the bookkeeping that must be closed)
+		for variant := 0; variant < 4; variant++ {
+			sdb := newStateDB()
+			var cl *countLogger
+			var tr vm.EVMLogger
+			if variant >= 2 || r.Bool() {
+				cl = &countLogger{}
+				tr = cl
 			}
-			loop = outer
-		} else {
-			sdb.CreateAccount(loop)
-			sdb.SetCode(loop, code)
-			if env.rules.IsBerlin {
-				sdb.AddAddressToAccessList(loop)
-			}
-		}
-		done := make(chan string, 1)
-		go func() {
-			res := "ok"
-			defer func() {
-				if x := recover(); x != nil {
-					res = "panic:" + strings.ReplaceAll(fmt.Sprint(x), " ", "_")
+			env := newEnv(forkNames[4+r.Intn(8)], tr, nil, sdb, nil)
+			env.evm.CloseAspectCall()
+			loop := common.BytesToAddress([]byte{0xc0, 9, 9})
+			code := []byte{opJUMPDEST, opPUSH1, 0, opPUSH1, 0, opMSTORE, opPUSH1, 0, opJUMP}
+			topCreate := false
+			install := func(a common.Address, c []byte) {
+				sdb.CreateAccount(a)
+				sdb.SetCode(a, c)
+				if env.rules.IsBerlin {
+					sdb.AddAddressToAccessList(a)
 				}
-				done <- res
-			}()
-			env.evm.Call(context.Background(), vm.AccountRef(callerAddr), loop, nil, 1<<50, new(big.Int))
-		}()
-		time.Sleep(time.Duration(r.Intn(3000)) * time.Microsecond)
-		env.evm.Cancel()
-		verdict := ""
-		select {
-		case verdict = <-done:
-		case <-time.After(10 * time.Second):
-			verdict = "did_not_stop_within_10s"
-		}
-		if verdict == "ok" {
-			if d := reflect.ValueOf(env.evm).Elem().FieldByName("depth").Int(); d != 0 {
-				verdict = fmt.Sprintf("depth_%d_after_cancel", d)
-			} else if env.evm.Tracer().CallTree().Current() != nil {
-				verdict = "call_left_open_after_cancel"
 			}
+			switch variant {
+			case 0:
+				install(loop, code)
+			case 1:
+				// the loop runs one level down
+				a := &Asm{}
+				a.Op(opPUSH1, 0, opPUSH1, 0, opPUSH1, 0, opPUSH1, 0, opPUSH1, 0).PushBytes(loop[:]).Op(opGAS, opCALL, opSTOP)
+				outer := common.BytesToAddress([]byte{0xc0, 9, 8})
+				install(outer, a.Bytes())
+				install(loop, code)
+				loop = outer
+			case 2:
+				// the loop is the init code of a CREATE issued one level down
+				a := &Asm{}
+				for j, b := range code {
+					a.Op(opPUSH1, b).PushU(uint64(j)).Op(0x53)
+				}
+				a.PushU(uint64(len(code))).PushU(0).PushU(0).Op(opCREATE, opSTOP)
+				install(loop, a.Bytes())
+			default:
+				topCreate = true
+			}
+			done := make(chan string, 1)
+			go func() {
+				res := "ok"
+				defer func() {
+					if x := recover(); x != nil {
+						res = "panic:" + strings.ReplaceAll(fmt.Sprint(x), " ", "_")
+					}
+					done <- res
+				}()
+				if topCreate {
+					env.evm.Create(context.Background(), vm.AccountRef(callerAddr), code, 1<<50, new(big.Int))
+				} else {
+					env.evm.Call(context.Background(), vm.AccountRef(callerAddr), loop, nil, 1<<50, new(big.Int))
+				}
+			}()
+			time.Sleep(time.Duration(r.Intn(3000)) * time.Microsecond)
+			env.evm.Cancel()
+			verdict := ""
+			select {
+			case verdict = <-done:
+			case <-time.After(10 * time.Second):
+				verdict = "did_not_stop_within_10s"
+			}
+			if verdict == "ok" {
+				if d := reflect.ValueOf(env.evm).Elem().FieldByName("depth").Int(); d != 0 {
+					verdict = fmt.Sprintf("depth_%d_after_cancel", d)
+				} else if env.evm.Tracer().CallTree().Current() != nil {
+					verdict = "call_left_open_after_cancel"
+				} else if cl != nil && (cl.starts != cl.ends || cl.enters != cl.exits) {
+					verdict = fmt.Sprintf("debug_callbacks_left_open_after_cancel:start=%d:end=%d:enter=%d:exit=%d:variant=%d", cl.starts, cl.ends, cl.enters, cl.exits, variant)
+				}
+			}
+			em.Count(fmt.Sprintf("conc:cancel-variant=%d:tracer=%v", variant, cl != nil))
+			em.Op("C17,C03", "S cancel-safe", verdict)
 		}
-		em.Op("C17,C03", "S cancel-safe", verdict)
 	}
+}
+
+// countLogger counts the frame callbacks of the debug tracer.
+type countLogger struct{ starts, ends, enters, exits int }
+
+func (l *countLogger) CaptureTxStart(uint64) {}
+func (l *countLogger) CaptureTxEnd(uint64)   {}
+func (l *countLogger) CaptureStart(*vm.EVM, common.Address, common.Address, bool, []byte, uint64, *big.Int) {
+	l.starts++
+}
+func (l *countLogger) CaptureEnd([]byte, uint64, error) { l.ends++ }
+func (l *countLogger) CaptureEnter(vm.OpCode, common.Address, common.Address, []byte, uint64, *big.Int) {
+	l.enters++
+}
+func (l *countLogger) CaptureExit([]byte, uint64, error) { l.exits++ }
+func (l *countLogger) CaptureState(uint64, vm.OpCode, uint64, uint64, *vm.ScopeContext, []byte, int, error) {
+}
+func (l *countLogger) CaptureFault(uint64, vm.OpCode, uint64, uint64, *vm.ScopeContext, int, error) {
 }
